@@ -239,6 +239,31 @@ func reachableAvoiding(from *ssa.BasicBlock, stop func(*ssa.BasicBlock) bool) ma
 	return seen
 }
 
+// returnedValue: result i of a return, looking through the spill that a
+// function with a defer gets (results are stored to locals, the deferred calls
+// run, the locals are loaded and returned).
+func returnedValue(r *ssa.Return, i int) ssa.Value {
+	if i >= len(r.Results) {
+		return nil
+	}
+	v := r.Results[i]
+	u, ok := v.(*ssa.UnOp)
+	if !ok || u.Op != token.MUL {
+		return v
+	}
+	al, ok := u.X.(*ssa.Alloc)
+	if !ok {
+		return v
+	}
+	blk := r.Block()
+	for j := len(blk.Instrs) - 1; j >= 0; j-- {
+		if st, ok := blk.Instrs[j].(*ssa.Store); ok && st.Addr == ssa.Value(al) {
+			return st.Val
+		}
+	}
+	return v
+}
+
 // returnsOf lists the Return instructions of f.
 func returnsOf(f *ssa.Function) []*ssa.Return {
 	var out []*ssa.Return
